@@ -31,6 +31,11 @@ def cases(tier, seed):
                     for k in range(d):
                         cs.append({'scen': 'wf_step', 's': dict(s, k=k)})
                     continue
+                if name == 'set_core_free':
+                    # arbitrary new core (all its dims symbolic) at every index incl. negative and out-of-range ones: accepted only if the invariant survives
+                    for k in sorted(set([-d - 1, -d, -1, 0, d - 1, d])):
+                        cs.append({'scen': 'wf_step', 's': dict(s, k=k, B=min(s['B'], 3))})
+                    continue
                 if name in ('kron', 'kron_fn', 'cat', 'dot', 'add', 'sub', 'mul', 'add_ttm', 'sub_ttm', 'mul_ttm', 'matmat') and d == 3:
                     s['B'] = 2
                 c = {'scen': 'wf_step', 's': s}
